@@ -132,7 +132,7 @@ CHECKS = {
               " Stream kind sdl carries a 30 ms grpc-timeout and 50 ms of virtual time may pass before the ending, so that handlers that returned DeadlineExceeded have their trailers in flight when the connection ends."
               " 0..12 unary requests: with more than eight (goat's unary workers per connection) only Stop is used as the ending."),
         jobs=[dict(test="TestC10", quick=4800, thorough=30000), dict(test="FuzzC10", kind="fuzz", quick=0, thorough=90)],
-        floors={"TestC10:ending=readfail": 0.2, "TestC10:ending=writefail": 0.2, "TestC10:ending=stop": 0.15, "TestC10:parked-in-send": 0.1, "TestC10:orphan=true": 0.2},
+        floors={"TestC10:ending=readfail": 0.15, "TestC10:ending=writefail": 0.15, "TestC10:ending=stop": 0.15, "TestC10:parked-in-send": 0.1, "TestC10:orphan=true": 0.2},
         assumptions=COMMON_ASSUMPTIONS + ["cancelling the context passed to Serve is not among the endings the property lists and is not generated"],
     ),
     "C12": dict(
